@@ -122,8 +122,6 @@ func (s *Sim) After(d time.Duration, tag string, fn func()) {
 	at := s.Now() + d
 	s.mu.Lock()
 	s.seq++
-	// tie-free: perturb by the sequence number (sub-microsecond).
-	at += time.Duration(s.seq % 997)
 	heap.Push(&s.h, &event{at: at, seq: s.seq, fn: fn, tag: tag})
 	first := s.h[0].seq == s.seq
 	s.mu.Unlock()
